@@ -453,14 +453,10 @@ async def sorted(
         It is guaranteed to be worst-case O(n log n) runtime.
     """
     if key is None:
-        # TODO: is this a worthwhile optimisation?
-        try:
-            return _sync_builtins.sorted(iterable, reverse=reverse)  # type: ignore
-        except TypeError:
-            async with ScopedIter(iterable) as item_iter:
-                items: _sync_builtins.list[Any] = [item async for item in item_iter]
-            items.sort(reverse=reverse)
-            return items
+        async with ScopedIter(iterable) as item_iter:
+            items: _sync_builtins.list[Any] = [item async for item in item_iter]
+        items.sort(reverse=reverse)
+        return items
     else:
         async_key = _awaitify(key)
         async with ScopedIter(iterable) as item_iter:
